@@ -155,6 +155,7 @@ def preItems (p : Params) : List GItem :=
    { name := cTrackingUid, vt := "UIDREF", rel := "HAS OBS CONTEXT", value := p.trackingUid }] ++
   optItem cFindingCategory "CODE" "CONTAINS" p.findingCategory ++
   optItem cFinding "CODE" "CONTAINS" p.findingType ++
+  optItem cMethod "CODE" "CONTAINS" p.method ++
   p.sites.map (fun s => { name := cFindingSite, vt := "CODE", rel := "HAS CONCEPT MOD", value := s }) ++
   p.measurements.map (fun x => { name := x.1, vt := "NUM", rel := "CONTAINS", value := x.2 }) ++
   p.evaluations.map (fun x => { name := x.1, vt := "CODE", rel := "CONTAINS", value := x.2 }) ++
@@ -171,9 +172,10 @@ theorem optItem_inert (name rel : String) (v : Option String) : ∀ it ∈ optIt
 theorem preItems_inert (p : Params) : ∀ it ∈ preItems p, inertVt it.vt := by
   intro it h
   simp only [preItems, List.mem_append, List.mem_cons, List.not_mem_nil, or_false, List.mem_map] at h
-  rcases h with ((((((h | h) | h) | h) | ⟨s, _, h⟩) | ⟨x, _, h⟩) | ⟨x, _, h⟩) | h
+  rcases h with (((((((h | h) | h) | h) | h) | ⟨s, _, h⟩) | ⟨x, _, h⟩) | ⟨x, _, h⟩) | h
   · subst h; exact Or.inl rfl
   · subst h; exact Or.inr (Or.inl rfl)
+  · exact optItem_inert _ _ _ it h
   · exact optItem_inert _ _ _ it h
   · exact optItem_inert _ _ _ it h
   · subst h; exact Or.inr (Or.inr (Or.inl rfl))
@@ -418,7 +420,10 @@ theorem containsCode_finding (p : Params) (v : String) (hc : CleanNames p) :
   have h0 : (optItem cFindingCategory "CODE" "CONTAINS" p.findingCategory).any
       (fun it => it.name == cFinding && it.vt == "CODE" && it.rel == "CONTAINS" && it.value == v) = false := by
     cases p.findingCategory <;> simp [optItem, cFindingCategory, cFinding]
-  rw [h0, h1, h2, h3, h4, h5]
+  have h0' : (optItem cMethod "CODE" "CONTAINS" p.method).any
+      (fun it => it.name == cFinding && it.vt == "CODE" && it.rel == "CONTAINS" && it.value == v) = false := by
+    cases p.method <;> simp [optItem, cMethod, cFinding]
+  rw [h0, h0', h1, h2, h3, h4, h5]
   cases hf : p.findingType with
   | none => simp [optItem]
   | some x => simp [optItem]
@@ -461,7 +466,7 @@ theorem containsCode_site (p : Params) (v : String) :
         have e1 : (s == v) = false := beq_eq_false_iff_ne.mpr h
         have e2 : (v == s) = false := beq_eq_false_iff_ne.mpr h'
         rw [e1, e2]
-  rw [hopt, hopt, hopt, h2, h3, h5, hs]
+  rw [hopt, hopt, hopt, hopt, h2, h3, h5, hs]
   simp [cTrackingId, cTrackingUid, cFindingSite]
 
 theorem containsUidref_tracking (p : Params) (v : String) :
@@ -483,7 +488,7 @@ theorem containsUidref_tracking (p : Params) (v : String) :
     intro it hit
     obtain ⟨x, _, rfl⟩ := List.mem_map.mp hit
     simp [hg x]
-  rw [hopt, hopt, hopt, hmap _ _ (by intro x; simp), hmap _ _ (by intro x; simp), hmap _ _ (by intro x; simp), h5]
+  rw [hopt, hopt, hopt, hopt, hmap _ _ (by intro x; simp), hmap _ _ (by intro x; simp), hmap _ _ (by intro x; simp), h5]
   simp [cTrackingId, cTrackingUid]
 
 theorem commonMatches_constructed (p : Params) (f : Filters) (hc : CleanNames p) :
@@ -1063,20 +1068,30 @@ theorem findingType_constructed (p : Params) (hc : CleanNames p) : findingTypeOf
   simp only [findingTypeOf, valuesOf, mkGroup, mkItems_eq, preItems, List.filter_append]
   rw [filter_refItems_vt _ _ _ (Or.inl rfl), filter_optItem_other cGeometricPurpose cFinding _ _ _ (by decide),
     filter_evaluations_reserved p hc cFinding (by decide), filter_measurements_code, filter_sites_other p cFinding (by decide),
-    filter_optItem_other cFindingCategory cFinding _ _ _ (by decide)]
+    filter_optItem_other cMethod cFinding _ _ _ (by decide), filter_optItem_other cFindingCategory cFinding _ _ _ (by decide)]
   cases p.findingType <;> simp [optItem, cTrackingId, cTrackingUid, cFinding]
 
 theorem findingCategory_constructed (p : Params) (hc : CleanNames p) : findingCategoryOf (mkGroup p) = p.findingCategory := by
   simp only [findingCategoryOf, valuesOf, mkGroup, mkItems_eq, preItems, List.filter_append]
   rw [filter_refItems_vt _ _ _ (Or.inl rfl), filter_optItem_other cGeometricPurpose cFindingCategory _ _ _ (by decide),
     filter_evaluations_reserved p hc cFindingCategory (by decide), filter_measurements_code,
-    filter_sites_other p cFindingCategory (by decide), filter_optItem_other cFinding cFindingCategory _ _ _ (by decide)]
+    filter_sites_other p cFindingCategory (by decide), filter_optItem_other cMethod cFindingCategory _ _ _ (by decide),
+    filter_optItem_other cFinding cFindingCategory _ _ _ (by decide)]
   cases p.findingCategory <;> simp [optItem, cTrackingId, cTrackingUid, cFindingCategory]
+
+theorem method_constructed (p : Params) (hc : CleanNames p) : methodOf (mkGroup p) = p.method := by
+  simp only [methodOf, valuesOf, mkGroup, mkItems_eq, preItems, List.filter_append]
+  rw [filter_refItems_vt _ _ _ (Or.inl rfl), filter_optItem_other cGeometricPurpose cMethod _ _ _ (by decide),
+    filter_evaluations_reserved p hc cMethod (by decide), filter_measurements_code,
+    filter_sites_other p cMethod (by decide), filter_optItem_other cFinding cMethod _ _ _ (by decide),
+    filter_optItem_other cFindingCategory cMethod _ _ _ (by decide)]
+  cases p.method <;> simp [optItem, cTrackingId, cTrackingUid, cMethod]
 
 theorem findingSites_constructed (p : Params) (hc : CleanNames p) : findingSitesOf (mkGroup p) = p.sites := by
   simp only [findingSitesOf, valuesOf, mkGroup, mkItems_eq, preItems, List.filter_append]
   rw [filter_refItems_vt _ _ _ (Or.inl rfl), filter_optItem_other cGeometricPurpose cFindingSite _ _ _ (by decide),
     filter_evaluations_reserved p hc cFindingSite (by decide), filter_measurements_code,
+    filter_optItem_other cMethod cFindingSite _ _ _ (by decide),
     filter_optItem_other cFinding cFindingSite _ _ _ (by decide), filter_optItem_other cFindingCategory cFindingSite _ _ _ (by decide)]
   have : (p.sites.map (fun s => ({ name := cFindingSite, vt := "CODE", rel := "HAS CONCEPT MOD", value := s } : GItem))).filter
       (fun it => it.name == cFindingSite && it.vt == "CODE") =
@@ -1105,7 +1120,7 @@ theorem measurements_constructed (p : Params) : measurementsOf (mkGroup p) = p.m
   have hm : (p.measurements.map (fun x => ({ name := x.1, vt := "NUM", rel := "CONTAINS", value := x.2 } : GItem))).filter
       (fun it => it.vt == "NUM") = p.measurements.map (fun x => ({ name := x.1, vt := "NUM", rel := "CONTAINS", value := x.2 } : GItem)) := by
     rw [List.filter_eq_self]; intro it hit; obtain ⟨x, _, rfl⟩ := List.mem_map.mp hit; simp
-  rw [hopt, hopt, hopt, href, hev, hs, hm]
+  rw [hopt, hopt, hopt, hopt, href, hev, hs, hm]
   simp [List.filter_cons, List.map_map, Function.comp_def]
 
 theorem evaluations_constructed (p : Params) (hc : CleanNames p) : evaluationsOf (mkGroup p) = p.evaluations := by
@@ -1133,7 +1148,7 @@ theorem evaluations_constructed (p : Params) (hc : CleanNames p) : evaluationsOf
     rw [List.filter_eq_self]; intro it hit; obtain ⟨x, hx, rfl⟩ := List.mem_map.mp hit
     have : ¬ x.1 ∈ reservedCodeNames := by simpa using hc x hx
     simp [this]
-  rw [hopt _ _ (by decide), hopt _ _ (by decide), hopt _ _ (by decide), href, hm, hs, hev]
+  rw [hopt _ _ (by decide), hopt _ _ (by decide), hopt _ _ (by decide), hopt _ _ (by decide), href, hm, hs, hev]
   simp [List.filter_cons, List.map_map, Function.comp_def]
 
 /-- names of measurements and evaluations must not be ROI reference type names (the `reference_type` accessor
@@ -1150,15 +1165,16 @@ theorem find?_append_none {α} (l r : List α) (q : α → Bool) (h : ∀ x ∈ 
 
 theorem referenceType_constructed (p : Params) (allowed : List String)
     (hfix : allowed.contains cTrackingId = false ∧ allowed.contains cTrackingUid = false ∧ allowed.contains cFindingCategory = false ∧
-            allowed.contains cFinding = false ∧ allowed.contains cFindingSite = false ∧ allowed.contains cGeometricPurpose = false)
+            allowed.contains cFinding = false ∧ allowed.contains cMethod = false ∧ allowed.contains cFindingSite = false ∧
+            allowed.contains cGeometricPurpose = false)
     (hc : CleanRefNames p allowed) :
     referenceTypeOf (mkGroup p) allowed = ((refItems p.ref).find? (fun it => allowed.contains it.name)).map (·.name) := by
   simp only [referenceTypeOf, mkGroup, mkItems_eq]
   rw [find?_append_none]
   intro it hit
   simp only [preItems, List.mem_append, List.mem_cons, List.not_mem_nil, or_false, List.mem_map] at hit
-  obtain ⟨h1, h2, h3, h4, h5, h6⟩ := hfix
-  rcases hit with ((((((h | h) | h) | h) | ⟨s, _, h⟩) | ⟨x, hx, h⟩) | ⟨x, hx, h⟩) | h
+  obtain ⟨h1, h2, h3, h4, h4', h5, h6⟩ := hfix
+  rcases hit with (((((((h | h) | h) | h) | h) | ⟨s, _, h⟩) | ⟨x, hx, h⟩) | ⟨x, hx, h⟩) | h
   · subst h; exact h1
   · subst h; exact h2
   · cases hfc : p.findingCategory with
@@ -1167,6 +1183,9 @@ theorem referenceType_constructed (p : Params) (allowed : List String)
   · cases hft : p.findingType with
     | none => rw [hft] at h; simp [optItem] at h
     | some v => rw [hft] at h; simp [optItem] at h; subst h; exact h4
+  · cases hm : p.method with
+    | none => rw [hm] at h; simp [optItem] at h
+    | some v => rw [hm] at h; simp [optItem] at h; subst h; exact h4'
   · subst h; exact h5
   · subst h; exact hc.1 x hx
   · subst h; exact hc.2 x hx
